@@ -193,9 +193,10 @@ def make_prog(spec, mon=None, barrier_log=None):
             elif k == 'output':
                 res.append(int(await mpc.output(xs[op[1]])))
             elif k == 'barrier':
+                pre = len(mon.pending_tasks(pid)) if mon is not None else 0
                 await mpc.barrier()
                 if barrier_log is not None and mon is not None:
-                    barrier_log[pid].append(mon.pending_tasks(pid))
+                    barrier_log[pid].append((pre, mon.pending_tasks(pid)))
             elif k == 'exc':
                 try:
                     if op[1]:
@@ -606,19 +607,20 @@ def check_table(ctx, info, table_ok):
         ctx.case({'witness': name}, nontrivial=True, kind='witness search')
 
 
+def coq_tree_args(tree, c0):
+    """`(hop_of_table <real _hop values>) (c0) <body>` for a logged call tree."""
+    from mpyc import asyncoro
+    tbl = {}
+    for (c, d), child in tree_forks(tree, []):
+        tbl[(c + 1, d)] = asyncoro._hop([c + 1, d])      # the real hop, computed independently of the log
+    tl = '[' + '; '.join('((%d)%%Z, %d%%nat, (%d)%%Z)' % (c, d, h) for (c, d), h in sorted(tbl.items())) + ']'
+    return '(hop_of_table %s) ((%d)%%Z, %d%%nat) %s' % (tl, c0[0], c0[1], tree_to_coq(tree))
+
+
 def replay_in_coq(ctx, items):
     """items: list of (key, tree(reference party/schedule), c0) ; evaluates PC.all_labels on the logged tree with the
     real _hop values as finite table. Returns list of predicted value lists."""
-    from mpyc import asyncoro
-    exprs = []
-    for key, tree, c0 in items:
-        forks = tree_forks(tree, [])
-        tbl = {}
-        for (c, d), child in forks:
-            tbl[(c + 1, d)] = asyncoro._hop([c + 1, d])      # the real hop, computed independently of the log
-        tl = '[' + '; '.join('((%d)%%Z, %d%%nat, (%d)%%Z)' % (c, d, h) for (c, d), h in sorted(tbl.items())) + ']'
-        exprs.append('all_labels (hop_of_table %s) ((%d)%%Z, %d%%nat) %s' % (tl, c0[0], c0[1], tree_to_coq(tree)))
-    return ctx.coq_eval(['MPyC.PC'], exprs, chunk=1, timeout=600)
+    return ctx.coq_eval(['MPyC.PC'], ['all_labels ' + coq_tree_args(tree, c0) for key, tree, c0 in items], chunk=1, timeout=600)
 
 
 def canon_ev(v):
@@ -707,7 +709,7 @@ def run(ctx):
                     for i in range(m):
                         if (ci, pi, i) not in ref_trees:
                             ref_trees[(ci, pi, i)] = (pn, trees[i])
-                            if i == 0 and len(replay_items) < ctx.n(10, 40):
+                            if i == 0 and len(replay_items) < ctx.n(8, 40):
                                 replay_items.append(((m, t, pi), trees[0], sess.c0[0]))
                                 replay_meta.append({'m': m, 't': t, 'program': pi, 'schedule': pn,
                                                     'values': tree_values(trees[0])})
